@@ -53,17 +53,33 @@ def spec_from_seed(run_seed, tier):
         return f"|schulz_zimm({Mw}, {Mn})|"
 
     text = re.sub(r"\|[a-z_]+\([^)]*\)\|", rep, text)
-    return {"kind": "atomgraph", "prop": "C18", "text": text, "tags": sorted(tags), "regenerate": rnd.choice([0, 0, 1, 2]),
+    abort_first = {"at": rnd.choice([0, 1, 2, 3, 5, 8, 13, 21]), "how": rnd.choice(["raise", "interrupt"])} if rnd.random() < 0.12 else None
+    return {"kind": "atomgraph", "prop": "C18", "text": text, "tags": sorted(tags), "regenerate": rnd.choice([0, 0, 1, 2]), "abort_first": abort_first,
             "sched": {"seed": rnd.randrange(1 << 48), "choice_policy": rnd.choice(["faithful", "uniform_support", "rare", "mix", "first", "last"]),
                       "draw_policy": rnd.choice(["natural", "low", "mid", "tails"]), "script": None, "budget": 3000}}
 
 
-def _generate(g, text, sched):
+def _generate(g, text, sched, abort_first=None):
     world = World(sched, embed="stub")
     with world:
         mol = g.Molecule(text)
         sg = mol.gen_stochastic_atom_graph(True)
         ag = g.AtomGraph(sg, rng=SimRng(sched))
+        if abort_first is not None:
+            # a first generation on this object is aborted half-way: the generator raises at its k-th call; the object is
+            # then used again (below), which must give a whole molecule as if nothing had happened
+            sched.faults[abort_first["at"]] = abort_first["how"]
+            try:
+                ag.generate()
+            except (BudgetExceeded, DrawDiverges):
+                pass  # the first generation ended some other way (a draw that does not return is judged on audited runs)
+            except SimAbort:
+                raise
+            except BaseException:
+                pass
+            sched.faults.clear()
+            if sched.fired:
+                world.event({"k": "fault", "kind": "first_generation_aborted", "at": abort_first["at"]})
         exc = None
         try:
             ag.generate()
@@ -94,13 +110,15 @@ def execute(spec):
     try:
         sched = Scheduler(**spec["sched"])
         try:
-            world, sg, ag, exc = _generate(g, text, sched)
+            world, sg, ag, exc = _generate(g, text, sched, spec.get("abort_first"))
         except SimAbort:
             raise
         except Exception as e:
             viol("graph_construction_raised", f"building the stochastic atom graph raised {e!r}", ["exc=" + type(e).__name__])
             return _result(spec, viols, None, None, {"runs": 1})
         stats = {"runs": 1, "decisions": sched.calls, "events": len(world.log)}
+        if spec.get("abort_first") and sched.fired:
+            stats["fault:rng_" + spec["abort_first"]["how"]] = 1
         n_multi = sum(1 for e in world.log if e["k"] == "dec" and e.get("kind") == "choice" and sum(1 for x in e["p"] if x > 0) > 1)
         stats["multi_option_decisions"] = n_multi
         if exc is not None and "single source node" in str(exc):
@@ -123,7 +141,7 @@ def execute(spec):
             return _result(spec, viols, world, sched, stats, n_multi)
         n_inst = _audit(ast, sg, ag, viol, stats)
         # same schedule, same molecule
-        if not viols:
+        if not viols and not spec.get("abort_first"):
             sched2 = Scheduler(spec["sched"]["seed"], script=list(sched.trace), budget=3000)
             world2, sg2, ag2, exc2 = _generate(g, text, sched2)
             if exc2 is not None or _canon(ag2) != _canon(ag):
